@@ -43,4 +43,11 @@ let () = Reg.register "c28.collide" (fun inp out ->
     let collide = int_of_nat s.Ident.r_errors > 0 in
     let same = Ident.bytes_eqb (Ident.produce a st) (Ident.produce b st) in
     (put_bool collide, if get_bool out = same then "ok" else if same then "bad:collision-not-reported" else "bad:spurious-collision")
+  | [A kind; a; b; x] ->
+    (* explicit ID clauses: xterm1 = second terminal explicit, xterm2 = first explicit, xterm3 = both *)
+    let a = get_list get_z a and b = get_list get_z b and x = get_list get_z x in
+    let ida = if kind = "xterm1" then Ident.produce a Ident.UpperCase else x in
+    let idb = if kind = "xterm2" then Ident.produce b Ident.UpperCase else x in
+    let same = Ident.bytes_eqb ida idb in
+    (put_bool same, if get_bool out = same then "ok" else if same then "bad:collision-not-reported" else "bad:spurious-collision")
   | _ -> failwith "c28.collide")
